@@ -36,7 +36,7 @@ EXHAUSTIVE = {'quick': False, 'thorough': False}
 
 STOP_KINDS = ['abort', 'handler', 'ctrlAbort', 'ctrlShutdown', 'shutdown', 'cancel']
 PHASES = (['notStarted', 'abortedBeforeStart', 'taskCreated', 'initialising', 'running', 'cancelRequested',
-           'abortedStartFinished']
+           'abortedStartFinished', 'eagerRefused']
           + [f'{p}:{k}' for p in ('aborting', 'stopping1', 'cleaningUp', 'finished') for k in STOP_KINDS])
 # 'aborting:K'  = right after the stop K was requested, in the same step of the caller;
 # 'stopping1:K' = one event-loop iteration later (a task created for shutdown() has made its first step, a
@@ -63,6 +63,9 @@ def recipe(phase):
         return []
     if base == 'abortedBeforeStart':
         return ['preabort']
+    if base == 'eagerRefused':
+        # the loop uses asyncio.eager_task_factory: run_forever() refuses to start (RuntimeError)
+        return ['eager']
     if base == 'taskCreated':
         return ['create']
     if base == 'initialising':
@@ -89,7 +92,7 @@ def scenarios(rng, tier):
     def send(dest_block=None, **kw):
         s = {'dest': rng.choice(['sblockObj', 'sblockName']), 'etype': 'ev', 'csrc': rng.choice(CTOR_SOURCES[:5]),
              'value': '<absent>', 'source': '<absent>', 'extra': {},
-             'block': dest_block or rng.choice(['probe', 'probeh', 'loginput'])}
+             'block': dest_block or rng.choice(['probe', 'probeh', 'loginput', 'pinput'])}
         s.update(kw)
         return s
     # phase x source shape x value: complete
@@ -213,8 +216,11 @@ def run_send(scn):
     edzed.reset_circuit()
     circuit = edzed.get_circuit()
     log = []
+    circuit.set_persistent_data({})
     blocks = {'probe': Probe('probe', log=log), 'probeh': ProbeH('probeh', log=log),
-              'loginput': LogInput('loginput', log=log, initdef=0)}
+              'loginput': LogInput('loginput', log=log, initdef=0),
+              # a destination with ACTIVE persistence (the event goes through AddonPersistence.event)
+              'pinput': LogInput('pinput', log=log, initdef=0, persistent=True)}
     boom = Boom('boom')
     edzed.ControlBlock('_ctrl', _reserved=True)
     SlowInit('slowinit', init_timeout=5)
@@ -233,6 +239,20 @@ def run_send(scn):
             if step == 'preabort':
                 circuit.abort(RuntimeError('src1'))
                 life_line('ext life abort x1')
+            elif step == 'eager':
+                loop.set_task_factory(asyncio.eager_task_factory)
+                try:
+                    refused = asyncio.ensure_future(circuit.run_forever())
+                    try:
+                        await refused
+                    except RuntimeError:
+                        pass
+                finally:
+                    loop.set_task_factory(None)
+                await asyncio.sleep(0)
+                lines.append('ext reset')       # the start was refused: the circuit is as before the start
+                trace.append('ok')
+                life.append(('eager-refused', circuit.is_ready()))
             elif step == 'create':
                 simtask = asyncio.create_task(circuit.run_forever())
             elif step == 'settle0':
@@ -499,6 +519,8 @@ def oracle(scn, res):
     # (covered by the per-send check above; here: never ready once it was refused after a start)
     seen_stop = False
     for op, ready in res['life']:
+        if op == 'eager-refused' and ready:
+            out.append({'clause': 'send_delivers_iff_ready', 'what': 'is_ready() True after a refused start'})
         if any(k in op for k in ('abort', 'handlerErr', 'ctrlAbort', 'ctrlShutdown')):
             seen_stop = True
         if seen_stop and ready:
